@@ -13,6 +13,7 @@ EXPLANATION = (
     "names the parser dispatches on and passes content and tag strings through json_escape. Round-trip equality and "
     "the variable-length region (written through moving cursors) are not decided.")
 EXPLANATION += " Also decided: json_unescape writes only table constants, verbatim input bytes or encode_utf8 output."
+EXPLANATION += ' Also decided: the surrogate test dominates encode_utf8; input copied by the escaper in bulk is judged by evaluating the guarding scan for all 256 byte values; header bytes count as written through the member flags only at returns behind the completeness test.'
 ASSUMPTIONS = []
 
 
@@ -41,7 +42,7 @@ def header_coverage(ctx, s):
     for b, i, cs, facts in sets:
         for c in cs:
             req.setdefault(c, []).append(b)
-    miss, n = layout.covered(ctx, s, pj, w_pj, 144, req)
+    miss, n = layout.covered(ctx, s, pj, w_pj, 144, req, k)
     report(ctx, s, pj, "event-header", 144, miss, n)
     # field maps agree
     fields = {"kind": (4, 6), "created_at": (8, 16), "id": (16, 48), "pubkey": (48, 80), "sig": (80, 144)}
@@ -126,6 +127,8 @@ def rest(ctx, s):
           "the writer emits exactly the seven member names the parser dispatches on" if okn else
           "writer names %s differ from the parser's" % sorted(n_.decode() for n_ in names))
     escaping.unescape_writes(ctx, s)
+    escaping.surrogates_refused(ctx, s)
+    escaping.raw_input_copies(ctx, s, [parsers.EVENT_PARSER, parsers.FILTER_PARSER, parsers.JP + "read_content", parsers.JP + "read_tags_array"])
     escaping.utf8_width_table(ctx, s)
     escaping.escape_table(ctx, s)
     escaping.writer_escapes(ctx, s, "pocket_types::Event::as_json")
